@@ -17,11 +17,19 @@ LEVEL = "model_checking"
 
 # (expression, [bindings...]) per thread; chosen so that everything collides (same scratch names
 # ex_N.., same variable names) and every cross-combination differs from the solo result.
+# Threads 0 and 1 run the SAME expression text (so anything keyed by source text, generated code or
+# AST collides) with different bindings, patterns and strings (so anything keyed too coarsely, or
+# holding "the last" pattern / activation / result, collides observably); thread 2 runs a different
+# text.  Every program has short-circuit operators, a conditional, a macro, a regular expression and
+# a size(), i.e. it defines the same scratch names ex_N.. with different meanings per thread.
+RICH = '([1, 2].exists(v, v == x) || s.matches(p)) ? x * 10 + size(s) : ((x > 1 && y) ? x + 100 : x + 200)'
 THREADS = [
-    ("(x > 1 || y) ? x * 10 : x * 10 + 1", [{"x": 1, "y": False}, {"x": 2, "y": False}]),
-    ("(x < 1 && y) ? x * 100 + 7 : x * 100 + 8", [{"x": 0, "y": True}, {"x": 5, "y": True}]),
-    ("[3, 6].exists(v, v == x) ? x + 1000 : x + 2000", [{"x": 6, "y": True}, {"x": 4, "y": False}]),
+    (RICH, [{"x": 1, "y": False, "s": "keep", "p": "^ke+p$"}, {"x": 5, "y": True, "s": "drop", "p": "^k"}]),
+    (RICH, [{"x": 7, "y": True, "s": "dropped", "p": "^dr.p"}, {"x": 0, "y": True, "s": "kk", "p": "^k$"}]),
+    ('[3, 6].exists(v, v == x) ? x + 1000 : (s.matches(p) && y ? x + 2000 : x + 3000)', [{"x": 6, "y": True, "s": "abc", "p": "b"}, {"x": 4, "y": True, "s": "abc", "p": "^b"}]),
 ]
+
+
 def opcode_objects():
     """Code objects explored at byte-code granularity: the functions that touch process-wide state."""
     import celpy
@@ -33,7 +41,7 @@ def opcode_objects():
 
 def to_cel(b):
     import celpy.celtypes as ct
-    return {k: (ct.BoolType(v) if isinstance(v, bool) else ct.IntType(v)) for k, v in b.items()}
+    return {k: (ct.BoolType(v) if isinstance(v, bool) else (ct.StringType(v) if isinstance(v, str) else ct.IntType(v))) for k, v in b.items()}
 
 
 def make_body(tidx, kind, nevals, phase):
@@ -78,7 +86,7 @@ def exec_batch(cfg, prefixes):
     On first use in a process the bodies are run once untraced and the state restored, which only
     warms interpreter-level caches (a cold traced run costs seconds after a fork)."""
     from ..explore import procstate
-    mix, nevals, warm, opcode = cfg
+    mix, nevals, warm, opcode, gran, only = cfg
     if _WORKER["cfg"] is None:
         warm_up(warm)
         snap = procstate.snapshot()
@@ -93,7 +101,7 @@ def exec_batch(cfg, prefixes):
     for prefix in prefixes:
         phases = [[None] for _ in mix]
         bodies = [make_body(i, k, nevals, phases[i]) for i, k in enumerate(mix)]
-        res = sched.execute(bodies, prefix, opcode_code_objects=opcode_objects() if opcode else (), phases=phases)
+        res = sched.execute(bodies, prefix, opcode_code_objects=opcode_objects() if opcode else (), phases=phases, granularity=gran, only_phase=only)
         res["left_behind"] = procstate.restore(snap)
         out.append(res)
     _WORKER["seq"] += 1
@@ -167,7 +175,7 @@ def first_bad(mix, vec, solos):
 
 def explore(ctx, cfg, bound, solos, label, cap=None, window="all"):
     """Iterative context bounding for one configuration; returns counters."""
-    mix, nevals, warm, opcode = cfg
+    mix, nevals, warm, opcode, gran, only = cfg
     frontier = [[]]
     executed = 0
     vectors = collections.Counter()
@@ -213,7 +221,7 @@ def explore(ctx, cfg, bound, solos, label, cap=None, window="all"):
                 c1 = run_schedule((cfg, res["choices"]))
                 c2 = run_schedule((cfg, res["choices"]))
                 v1, v2 = vec_of(c1), vec_of(c2)
-                witness = {"mix": list(mix), "nevals": nevals, "warm": list(warm), "opcode": opcode, "schedule": res["choices"], "thread": t}
+                witness = {"mix": list(mix), "nevals": nevals, "warm": list(warm), "opcode": opcode, "granularity": gran, "only_phase": only, "schedule": res["choices"], "thread": t}
                 if v1 != v2:
                     raise runner.HarnessError(f"{label}: schedule replay is not deterministic: {v1} vs {v2}")
                 if first_bad(mix, v1, solos) is None:
@@ -251,20 +259,22 @@ def run(ctx):
     repo.prebuild_parsers()
     nevals = 2
     configs = []
-    # (mix, warm, preemption bound, opcode granularity, window for preemption placement)
+    # (mix, warm, preemption bound, opcode events, window for preemption placement, switch-point granularity)
     if ctx.thorough:
         plan = [
-            (("C", "C"), (), 1, False, "all"), (("C", "I"), (), 1, False, "all"), (("I", "C"), (), 1, False, "all"), (("I", "I"), (), 1, False, "all"),
-            (("C", "C"), ("C",), 1, False, "all"), (("C", "I"), ("I",), 1, False, "all"), (("C", "I"), ("C",), 1, False, "all"), (("I", "I"), ("I",), 1, False, "eval"),
-            (("C", "C"), ("C",), 2, False, "eval"),
-            (("C", "C", "I"), (), 1, False, "eval"), (("C", "C", "C"), ("C",), 1, False, "eval"),
-            (("C", "C"), ("C",), 1, True, "eval"),
+            (("C", "C"), (), 1, False, "all", "line"), (("C", "I"), (), 1, False, "all", "line"), (("I", "C"), (), 1, False, "all", "line"), (("I", "I"), (), 1, False, "eval", "line"),
+            (("C", "C"), ("C",), 1, False, "all", "line"), (("C", "I"), ("I",), 1, False, "eval", "line"), (("C", "I"), ("C",), 1, False, "eval", "line"),
+            (("C", "C"), ("C",), 2, False, "eval", "call"), (("C", "I"), (), 2, False, "eval", "call"),
+            (("C", "C", "I"), (), 1, False, "eval", "call"), (("C", "C", "C"), ("C",), 1, False, "eval", "call"),
+            (("C", "C"), ("C",), 1, True, "eval", "line"), (("I", "I"), (), 1, False, "eval", "call"),
         ]
     else:
         plan = [
-            (("C", "C"), (), 1, False, "all"),
-            (("C", "I"), (), 1, False, "eval"),
-            (("C", "C", "I"), (), 0, False, "all"),
+            (("C", "C"), (), 1, False, "all", "call"),
+            (("C", "I"), (), 1, False, "all", "call"),
+            (("C", "C"), (), 1, False, "eval", "line"),
+            (("I", "I"), (), 0, False, "all", "call"),
+            (("C", "C", "I"), (), 0, False, "all", "call"),
         ]
     # solo references: fresh fork, cross-checked against a fresh python subprocess
     solos = {}
@@ -272,7 +282,7 @@ def run(ctx):
     for t in range(len(THREADS)):
         for k in ("I", "C"):
             ref = tuple(solo_subprocess(t, k, nevals))
-            for warm in {w for (_m, w, _b, _o, _w) in plan}:
+            for warm in {w for (_m, w, _b, _o, _w, _g) in plan}:
                 got = tuple(runner.pmap(solo_task, [(t, k, nevals, warm)], nproc=1)[0])
                 # a warm zygote of the *other* kind may legitimately differ only if the tree is broken; compare anyway
                 if got != ref and not warm:
@@ -281,24 +291,24 @@ def run(ctx):
             solos[(t, k)] = ref
             if any(o[0] != "V" for o in ref):
                 raise runner.HarnessError(f"solo run of thread {t}/{k} does not produce values: {ref}")
-    # forced-collision check: program i on thread j's bindings must differ from thread i's own results
-    import celpy
+    # forced-collision check: program i on thread j's bindings, and program j on thread i's bindings,
+    # must both differ from thread i's own result (brute force over the cross combinations)
     for i, (e, bi) in enumerate(THREADS):
-        for j, (_e2, bj) in enumerate(THREADS):
+        for j, (e2, bj) in enumerate(THREADS):
             if i == j:
                 continue
             for n in range(nevals):
                 a = subprocess_free_eval(e, bi[n])
                 b = subprocess_free_eval(e, bj[n])
-                c = subprocess_free_eval(THREADS[j][0], bi[n])
-                if a == b or a == c:
-                    raise runner.HarnessError(f"bindings of threads {i} and {j} do not collide observably for {e!r}")
+                c = subprocess_free_eval(e2, bi[n])
+                if a == b or (e2 != e and a == c):
+                    raise runner.HarnessError(f"bindings of threads {i} and {j} do not collide observably for {e!r}: {a} {b} {c}")
     total_exec = total_trans = 0
     distinct = set()
     per_cfg = {}
-    for mix, warm, bound, opcode, window in plan:
-        cfg = (mix, nevals if (ctx.thorough and bound < 2) else 1, warm, opcode)
-        label = f"{''.join(mix)}/warm={''.join(warm) or '-'}/bound={bound}/window={window}{'/opcode' if opcode else ''}"
+    for mix, warm, bound, opcode, window, gran in plan:
+        cfg = (mix, nevals if (gran == "call" and bound < 2) else 1, warm, opcode, gran, (window if window != "all" else None))
+        label = f"{''.join(mix)}/warm={''.join(warm) or '-'}/bound={bound}/window={window}/{gran}{'+opcode' if opcode else ''}"
         st = explore(ctx, cfg, bound, solos if cfg[1] == nevals else {k: v[:cfg[1]] for k, v in solos.items()}, label, window=window)
         per_cfg[label] = st
         total_exec += st["executed"]
@@ -308,7 +318,7 @@ def run(ctx):
     ctx.part.sample({"threads": [{"expr": e, "bindings": b[:nevals]} for e, b in THREADS], "example_schedule": "choice list, one entry per scheduling point; 0 = keep running the current thread"})
     ctx.part.sample({"configurations": per_cfg})
     ctx.rule = ("an execution is one complete schedule of the thread bodies (create Environment, compile, program, evaluate twice) in a fresh fork; "
-                "all schedules with at most the stated number of preemptions at Python-line granularity inside celpy/*.py and the generated module are enumerated per "
+                "all schedules with at most the stated number of preemptions, placed at every Python line (granularity line) or at every function entry (granularity call) inside celpy/*.py and the generated module, are enumerated per "
                 "configuration (runner mix x cold/warm parser state); each execution is non-trivial (its result vectors are compared with the solo vectors)")
     ctx.assumptions = ["switch points are Python line events inside the library and generated code (opcode events in the listed functions for the opcode configuration); C-level callee internals are atomic under the GIL",
                        "2-3 threads, two evaluations each; preemption bound as stated per configuration",
@@ -333,7 +343,7 @@ def subprocess_free_eval(expr, b):
 def replay(w):
     wit = w["witness"]
     repo.prebuild_parsers()
-    cfg = (tuple(wit["mix"]), wit["nevals"], tuple(wit["warm"]), wit["opcode"])
+    cfg = (tuple(wit["mix"]), wit["nevals"], tuple(wit["warm"]), wit["opcode"], wit.get("granularity", "line"), wit.get("only_phase"))
     outs = []
     for _ in range(2):
         res = run_schedule((cfg, wit["schedule"]))
